@@ -365,7 +365,7 @@ open Trion
 
 def exBelow : Bytes := bytesOf ".addr 0x20000000;\nLDRB r2, [-(-1 - r0) * x];\n.const x, 1;\n"
 def exAbove : Bytes := bytesOf ".addr 0x20000000;\n.const x, 1;\nLDRB r2, [-(-1 - r0) * x];\n"
-def exFs (d : Bytes) : Bytes → Option Bytes := fun p => if p = [109] then some d else none
+def exOrdFs (d : Bytes) : Bytes → Option Bytes := fun p => if p = [109] then some d else none
 
 /-- success, number of diagnostics, image -/
 def exSummary (r : Result) : Option (Bool × Nat × List (Nat × Bytes)) :=
@@ -374,12 +374,12 @@ def exSummary (r : Result) : Option (Bool × Nat × List (Nat × Bytes)) :=
   | _ => none
 
 /-- `x` defined BELOW the instruction: the project assembles, image `42 78` (`LDRB r2, [r0, #1]`) at 0x20000000 -/
-theorem order_dependent_below : exSummary (run (exFs exBelow) [109]) = some (true, 0, [(536870912, [66, 120])]) := by
+theorem order_dependent_below : exSummary (run (exOrdFs exBelow) [109]) = some (true, 0, [(536870912, [66, 120])]) := by
   decide +kernel
 
 /-- `x` defined ABOVE the instruction: the same statement is diagnosed (twice: at the statement and in its task), the
 placeholder `BE BE` stays in the image and the run fails -/
-theorem order_dependent_above : exSummary (run (exFs exAbove) [109]) = some (false, 2, [(536870912, [190, 190])]) := by
+theorem order_dependent_above : exSummary (run (exOrdFs exAbove) [109]) = some (false, 2, [(536870912, [190, 190])]) := by
   decide +kernel
 
 end Trion.Asm
